@@ -41,6 +41,8 @@ var builderProps = struct {
 type builder struct {
 	parseDepth int
 	firstInput query
+	nodes      int // nodes processed so far
+	maxNodes   int // nodes allowed, see build
 }
 
 // axisPredicate creates a predicate to predicating for this axis node.
@@ -676,6 +678,13 @@ func (b *builder) processNode(root node, flags flag, props *builderProp) (q quer
 		err = errors.New("the xpath expressions is too complex")
 		return
 	}
+	// The parser shares the input of a step sequence a/(b,c) between its
+	// alternatives, so n sequences in a row expand to 2^n paths here; a few dozen
+	// bytes of input would otherwise keep Compile busy until memory runs out.
+	if b.nodes = b.nodes + 1; b.nodes > b.maxNodes {
+		err = errors.New("the xpath expressions is too complex")
+		return
+	}
 	*props = builderProps.None
 	switch root.Type() {
 	case nodeConstantOperand:
@@ -727,7 +736,7 @@ func build(expr string, namespaces map[string]string) (q query, err error) {
 		}
 	}()
 	root := parse(expr, namespaces)
-	b := &builder{}
+	b := &builder{maxNodes: 1<<20 + 4*len(expr)}
 	props := builderProps.None
 	return b.processNode(root, flagsEnum.None, &props)
 }
